@@ -160,11 +160,22 @@ def plan():
             obs.append(Ob("%s-structure%d-min" % (coll, gi), ob_closed, "real", 900,
                           dict(coll=coll, g=c01.MIN, gsym=gsym, nbits=0, rest=False, geom=gi % 9),
                           ("thorough",), twins=("any",), twin_timeout=300))
-        # users/tags that occur only in optional places: presence windows
-        for skip in range(0, c01.NFLAGS[coll], 8):
-            obs.append(Ob("%s-flags%02d" % (coll, skip), ob_closed, "real", 1200,
-                          dict(coll=coll, g=c01.RICH, gsym=[], nbits=8, skip=skip, rest=False, geom=2),
-                          q if skip < 16 else ("thorough",), twins=("any",), twin_timeout=300))
+        # users/tags that occur only in optional places: presence windows, other optionals absent
+        rec_flags = c01.nflags("recording_set")
+        start = 0 if coll == "recording_set" else rec_flags
+        for (skip, size) in c01.windows(coll, 4, start):
+            if coll in ("dataset", "evaluation_set", "model_run"):
+                break
+            if coll in ("evaluation", "annotation_project") and skip < c01.nflags("annotation_set"):
+                continue
+            obs.append(Ob("%s-flags%02d+%d" % (coll, skip, size), ob_closed, "real", 900,
+                          dict(coll=coll, g=c01.RICH, gsym=[], nbits=size, skip=skip, rest=False, geom=2),
+                          ("quick",), twins=("any",), twin_timeout=300))
+        for (skip, size) in c01.windows(coll, 6, 0):
+            for rest in (False, True):
+                obs.append(Ob("%s-flags%02d+%d-%s" % (coll, skip, size, "rich" if rest else "min"), ob_closed, "real",
+                              3000, dict(coll=coll, g=c01.RICH, gsym=[], nbits=size, skip=skip, rest=rest, geom=2),
+                              ("thorough",), twins=("any",), twin_timeout=300))
     return obs
 
 
